@@ -53,11 +53,12 @@ Mls == {<<It("pres", "description", {"d3"})>>, <<It("rem", "description", {"d1"}
 Yields == {[x \in {} |-> {}], [x \in {"s1"} |-> {"description"}]}
 Ops == {"modify", "revive", "delete", "create"}
 
+ProfileSets == {{}} \cup {{p} : p \in Pool} \cup (IF MaxProfiles >= 2 THEN {{p, q} : p \in Pool, q \in Pool} ELSE {})
 VARIABLES S, e, id, ml, Y, op
 vars == <<S, e, id, ml, Y, op>>
 NoY == [x \in {} |-> {}]
 ReviveMl == <<It("rem", "class", {"recycled"})>>
-Init == /\ S \in {T \in SUBSET Pool : Cardinality(T) <= MaxProfiles}
+Init == /\ S \in ProfileSets
         /\ id \in Ids /\ op \in Ops
         /\ e \in (CASE op = "revive" -> {x \in Entries : x.live = "recycled"}
                     [] op = "modify" -> {x \in Entries : ~Hidden(x)}
